@@ -135,13 +135,21 @@ BuildOpt(field) ==
                     optional |-> ~Falsy(Get(kv, kOptional)), required |-> ~Falsy(Get(kv, kRequired)), choices |-> GetMany(kv, kChoice),
                     hidden |-> ~Falsy(Get(kv, kHidden)), env |-> Get(kv, kEnv), envDelim |-> Get(kv, kEnvDelim)]]
 
-\* positional count tag: "" -> (-1,-1); "N" -> (N,-1); "N-M" -> (N,M); anything else non-empty -> (1,-1)
+\* positional count tag (command.go:183-206): "" -> (-1,-1); otherwise required = 1, maximum = -1, and then
+\*   with a dash (split at the FIRST one): each side that strconv.ParseInt accepts (optional sign, decimal digits) replaces its bound;
+\*   without a dash: the whole text, if ParseInt accepts it, replaces the required count
 IsNum(t) == t # E /\ \A i \in 1..Len(t) : IsDigit(t[i])
 NumVal(t) == FoldLeft(LAMBDA acc, c : acc * 10 + (c - 48), 0, t)
+\* [ok, big, v]: big = too many digits to decide here (32-bit range)
+PInt(t) == LET neg == t # E /\ t[1] = DASH
+               body == IF t # E /\ t[1] \in {DASH, 43} THEN Tail(t) ELSE t IN
+           IF ~IsNum(body) THEN [ok |-> FALSE, big |-> FALSE, v |-> 0]
+           ELSE IF Len(body) > 9 THEN [ok |-> FALSE, big |-> TRUE, v |-> 0]
+           ELSE [ok |-> TRUE, big |-> FALSE, v |-> IF neg THEN 0 - NumVal(body) ELSE NumVal(body)]
 ReqOf(t) == IF t = E THEN [req |-> -1, max |-> -1, spec |-> TRUE]
-            ELSE IF IsNum(t) /\ Len(t) <= 6 THEN [req |-> NumVal(t), max |-> -1, spec |-> TRUE]
             ELSE LET d == IndexOf(t, DASH) IN
-                 IF d > 1 /\ IsNum(Take(t, d - 1)) /\ IsNum(Drop(t, d)) /\ Len(t) <= 12 THEN [req |-> NumVal(Take(t, d - 1)), max |-> NumVal(Drop(t, d)), spec |-> TRUE]
-                 ELSE IF d = 0 /\ \A i \in 1..Len(t) : ~IsDigit(t[i]) /\ t[i] # 43 THEN [req |-> 1, max |-> -1, spec |-> TRUE]
-                 ELSE [req |-> 1, max |-> -1, spec |-> FALSE]             \* half-numeric forms: no verdict
+                 IF d = 0 THEN LET w == PInt(t) IN [req |-> IF w.ok THEN w.v ELSE 1, max |-> -1, spec |-> ~w.big]
+                 ELSE LET l == PInt(Take(t, d - 1))
+                          r == PInt(Drop(t, d)) IN
+                      [req |-> IF l.ok THEN l.v ELSE 1, max |-> IF r.ok THEN r.v ELSE -1, spec |-> ~l.big /\ ~r.big]
 =============================================================================
